@@ -4,6 +4,10 @@ import (
 	"fmt"
 
 	"github.com/taurusgroup/multi-party-sig/pkg/party"
+	"github.com/taurusgroup/multi-party-sig/pkg/protocol"
+	"github.com/taurusgroup/multi-party-sig/protocols/cmp"
+	"github.com/taurusgroup/multi-party-sig/protocols/doerner"
+	"github.com/taurusgroup/multi-party-sig/protocols/frost"
 	"github.com/taurusgroup/multi-party-sig/verif/fx"
 	"github.com/taurusgroup/multi-party-sig/verif/sim"
 	"github.com/taurusgroup/multi-party-sig/verif/vk"
@@ -13,7 +17,7 @@ func init() {
 	vk.Register(&vk.Check{
 		ID:    "C02",
 		Level: "exploration",
-		Rule: "real key generations through handlers in the simulator over (protocol, n, t, identifier alphabet, scheduler); the consistent-key-material oracle enumerates every (t+1)-subset (<=limit) with reference Lagrange; " +
+		Rule: "real key generations through handlers in the simulator over (protocol, n, t, identifier alphabet, scheduler); the consistent-key-material oracle enumerates every (t+1)-subset (<=limit) with reference Lagrange; second attempts with the very same start functions after an abandoned first attempt are judged alike; " +
 			"distinct non-trivial = distinct (protocol, n, t, alphabet, scheduler) tuples whose keygen completed and whose oracle evaluated at least one reconstruction subset",
 		MinDistinct:  20,
 		Assumptions:  []string{"reference Lagrange/secp256k1 in verif/ref", "CMP safe primes come from the pre-generated pool via hook H1 (each re-validated at load)"},
@@ -50,6 +54,17 @@ func c02Cases(env vk.Env) []vk.Case {
 	for i := 0; i < env.Pick(8, 150); i++ {
 		i := i
 		cs = append(cs, vk.Case{ID: fmt.Sprintf("doerner/%d", i), Run: func(tt *vk.T) { c02Doerner(tt, i) }})
+	}
+	for i := 0; i < env.Pick(6, 60); i++ {
+		i := i
+		for _, p := range []string{"frost", "taproot", "doerner"} {
+			p := p
+			cs = append(cs, vk.Case{ID: fmt.Sprintf("reuse/%s/%d", p, i), Run: func(tt *vk.T) { c02Reuse(tt, p, i) }})
+		}
+	}
+	for i := 0; i < env.Pick(1, 6); i++ {
+		i := i
+		cs = append(cs, vk.Case{ID: fmt.Sprintf("reuse/cmp/%d", i), Run: func(tt *vk.T) { c02Reuse(tt, "cmp", i) }})
 	}
 	type nt struct{ n, t int }
 	cmpSet := []nt{{2, 1}, {3, 1}, {3, 2}, {4, 1}, {3, 0}}
@@ -192,4 +207,112 @@ func c02CMP(t *vk.T, n, th int, i int) {
 	if reportMaterial(t, "cmp", shares, n, th, fmt.Sprintf("alphabet=%d|sched=%s", alpha, sname)) {
 		t.Sample(map[string]any{"protocol": "cmp", "n": n, "t": th, "ids": fx.IDStrings(ids), "scheduler": sname, "deliveries": net.Steps})
 	}
+}
+
+// c02Reuse: a key generation is started and abandoned (handlers created, then stopped), and a second attempt with
+// the very same start functions and another session id runs to completion: its outcome must satisfy the same
+// consistency conditions as any key generation (a start function is a description of a session, not a session).
+func c02Reuse(t *vk.T, proto string, i int) {
+	r := t.Rng
+	n := 2 + i%3
+	th := 1
+	if proto == "doerner" {
+		n = 2
+	}
+	ids := fx.IDs(r, i%4, n)
+	sfs := map[party.ID]protocol.StartFunc{}
+	for _, id := range ids {
+		switch proto {
+		case "frost":
+			sfs[id] = frost.Keygen(group, id, ids, th)
+		case "taproot":
+			sfs[id] = frost.KeygenTaproot(id, ids, th)
+		case "cmp":
+			sfs[id] = cmp.Keygen(group, id, ids, th, nil)
+		}
+	}
+	if proto == "cmp" {
+		fx.InstallPrimeHook()
+		fx.SetPrimeOffset(uint64(r.Intn(1000)))
+	}
+	if proto == "doerner" {
+		sfs[ids[0]] = doerner.Keygen(group, true, ids[0], ids[1], nil)
+		sfs[ids[1]] = doerner.Keygen(group, false, ids[1], ids[0], nil)
+	}
+	who := i % 3 // which parties had an abandoned first attempt: 0 = all, 1 = first only, 2 = last only
+	for k, id := range ids {
+		if who == 1 && k != 0 || who == 2 && k != len(ids)-1 {
+			continue
+		}
+		var h protocol.Handler
+		var err error
+		if proto == "doerner" {
+			h, err = protocol.NewTwoPartyHandler(sfs[id], []byte("abandoned"), k == 0)
+		} else {
+			h, err = protocol.NewMultiHandler(sfs[id], []byte("abandoned"))
+		}
+		if err != nil {
+			t.Inconclusive("first attempt could not be started: %v", err)
+			return
+		}
+		h.Stop()
+		for range h.Listen() {
+		}
+	}
+	var outs []fx.Outcome
+	var err error
+	opt := fx.Opt{SessionID: r.Bytes(6)}
+	if proto == "doerner" {
+		_, outs, err = fx.RunTwo(r, ids[0], ids[1], sfs[ids[0]], sfs[ids[1]], true, false, opt)
+	} else {
+		_, outs, err = fx.RunMulti(r, ids, func(id party.ID) protocol.StartFunc { return sfs[id] }, opt)
+	}
+	tag := fmt.Sprintf("%s n=%d ids=%q abandoned-first-attempt=%d", proto, n, ids, who)
+	if err != nil {
+		t.Violation(proto+"|second-attempt-refused", "%s: %v", tag, err)
+		return
+	}
+	if !fx.AllDone(outs) {
+		t.Violation(proto+"|second-attempt-did-not-complete", "%s: %s", tag, fx.Describe(outs))
+		return
+	}
+	var shares []fx.Share
+	for _, o := range outs {
+		pnk, fr, txt := vk.Guard(func() {
+			switch c := o.Value.(type) {
+			case *frost.Config:
+				shares = append(shares, fx.ShareOfFrost(c))
+			case *frost.TaprootConfig:
+				shares = append(shares, fx.ShareOfTaproot(c))
+			case *cmp.Config:
+				shares = append(shares, fx.ShareOfCMP(c))
+			case *doerner.ConfigReceiver:
+				s := fx.Share{ID: string(o.ID), T: 1, Secret: fx.IntOf(c.SecretShare), ChainKey: c.ChainKey, Additive: true}
+				var e error
+				if s.GroupKey, e = fx.PtOf(c.Public); e != nil {
+					s.Malformed = "group key: " + e.Error()
+				}
+				shares = append(shares, s)
+			case *doerner.ConfigSender:
+				s := fx.Share{ID: string(o.ID), T: 1, Secret: fx.IntOf(c.SecretShare), ChainKey: c.ChainKey, Additive: true}
+				var e error
+				if s.GroupKey, e = fx.PtOf(c.Public); e != nil {
+					s.Malformed = "group key: " + e.Error()
+				}
+				shares = append(shares, s)
+			}
+		})
+		if pnk {
+			t.Violation(proto+"|second-attempt-result-unusable", "%s: reading the result of %q panicked in %s: %s", tag, o.ID, fr, txt)
+			return
+		}
+	}
+	for _, s := range shares {
+		if s.Malformed != "" {
+			t.Violation(proto+"|second-attempt-result-malformed", "%s: party %q: %s", tag, s.ID, s.Malformed)
+			return
+		}
+	}
+	t.Obs("reused_start_functions", 1)
+	reportMaterial(t, proto, shares, n, th, fmt.Sprintf("second-attempt|abandoned=%d", who))
 }
